@@ -3,7 +3,7 @@
 # Confirms a seeded change from /tmp/mut/<Cxx>/out/<v>: demo passes on clean HEAD, patch applies, builds,
 # the repository's stable suite still passes, demo fails with the patch. On success archives it in /verif/seeded/<Cxx><v>/.
 export GOFLAGS=-mod=mod GOPROXY=off GOSUMDB=off GOTOOLCHAIN=local
-P=$1; V=$2; SRC=/tmp/mut/$P/out/$V; ID=$P$V
+P=$1; V=$2; SRC=${MUTBASE:-/tmp/mut}/$P/out/$V; ID=$P$V
 [ -f "$SRC/patch.diff" ] || { echo "no patch in $SRC"; exit 2; }
 WT=/tmp/mutconf/$ID
 rm -rf "$WT"; git -C /repo worktree prune; mkdir -p /tmp/mutconf
